@@ -15,11 +15,18 @@ open M3d M3d.Tri M3d.Surface
 
 abbrev Q := Rat
 
+/-- `pts0` are the coordinates `x/den` as written in the op line, `sc = 2^k` the dyadic unit of
+length of an `S k` header (1 without it), `pts = sc · pts0` the coordinates the Go code was given. -/
 structure Input where
   den : Nat
   lens : List Nat
+  pts0 : List (P2 Q)
+  sc : Q
   pts : List (P2 Q)
   rest : List String
+
+/-- `2^k` in `Q` for an integer exponent. -/
+def pow2 (k : Int) : Q := if k < 0 then 1 / ((2 ^ k.natAbs : Nat) : Q) else ((2 ^ k.natAbs : Nat) : Q)
 
 def takeInts : Nat → List String → Option (List Int × List String)
   | 0, ws => some ([], ws)
@@ -43,15 +50,22 @@ def parseLoops (den : Nat) : Nat → List String → Option (List Nat × List (P
       pure (n :: ls, ps ++ qs, r')
   | _, [] => none
 
-/-- `D den L k n₁ x y … n₂ … rest` -/
-def parseInput : List String → Option Input
+/-- `[S e] D den L k n₁ x y … n₂ … rest`; `S e` = all coordinates are multiplied by `2^e`. -/
+def parseInputS (sc : Q) : List String → Option Input
   | "D" :: d :: "L" :: k :: ws => do
       let den ← d.toNat?
       if den = 0 then none
       let k ← k.toNat?
       let (lens, pts, rest) ← parseLoops den k ws
-      pure ⟨den, lens, pts, rest⟩
+      pure ⟨den, lens, pts, sc, pts.map (scaleP sc), rest⟩
   | _ => none
+
+def parseInput : List String → Option Input
+  | "S" :: e :: ws => do
+      let e ← e.toInt?
+      if e.natAbs > 200 then none
+      parseInputS (pow2 e) ws
+  | ws => parseInputS 1 ws
 
 inductive TrisField | panic | foreign | tris (ts : List Tri)
 
@@ -165,15 +179,18 @@ def certLine (c : Nat → P2 Q) (nv : Nat) (cw : Bool) (lens : List Nat) (tris :
 
 def handleEar (inp : Input) : Option String := do
   let (tf, _) ← parseTris inp.rest
-  let loops := loopSlices inp.lens inp.pts
+  let loops := loopSlices inp.lens inp.pts0
   let poly ← loops.head?
   if loops.length ≠ 1 || !simpleLoop poly then some "invalid-input" else
-  let a2 := absQ (shoelace2 poly)
+  -- the area of the polygon the Go code was given (`pts = sc·pts0`)
+  let a2 := absQ (shoelace2 (poly.map (scaleP inp.sc)))
   match tf with
   | .panic => some s!"ok area={showRat (a2 / 2)} n=?"
   | .foreign => some "bad:foreign-vertex"
   | .tris ts =>
-    let c := coordFn inp.pts
+    -- the certificate is evaluated on the coordinates as written (`pts0`); by
+    -- `M3d.C14.cert_scale_invariant` that is the verdict for the scaled input `pts = sc·pts0`
+    let c := coordFn inp.pts0
     match certLine c poly.length (isClockwise poly) inp.lens ts with
     | some b => some b
     | none =>
@@ -182,16 +199,17 @@ def handleEar (inp : Input) : Option String := do
 
 def handleMesh (inp : Input) : Option String := do
   let (tf, _) ← parseTris inp.rest
-  let loops := loopSlices inp.lens inp.pts
+  let loops := loopSlices inp.lens inp.pts0
   if !validRegion loops then some "invalid-input" else
-  let a2 := regionArea2 loops
+  -- the area of the region the Go code was given (`pts = sc·pts0`)
+  let a2 := regionArea2 (loopSlices inp.lens inp.pts)
   let cnt := expectCount loops
   let okLine := s!"ok area={showRat (a2 / 2)} n={cnt}"
   match tf with
   | .panic => some okLine
   | .foreign => some "bad:foreign-vertex"
   | .tris ts =>
-    let c := coordFn inp.pts
+    let c := coordFn inp.pts0   -- verdict for `sc·pts0` by `cert_scale_invariant`
     match certLine c inp.pts.length true inp.lens ts with
     | some b =>
       -- classification for the known finding: everything holds except that some triangles have
@@ -239,7 +257,10 @@ def triples3 : List Int → List (Int × Int × Int)
   | a :: b :: c :: t => (a, b, c) :: triples3 t
   | _ => []
 
-def handleFace : List String → Option String
+/-- The face is checked on the coordinates as written: planarity, simplicity and the certificate
+are invariant under the uniform scaling `S e` (`M3d.C14.cert_scale_invariant`; the chart of
+`sc·p` is `sc·`chart of `p`), and no area is printed for this kind. -/
+def handleFaceS : List String → Option String
   | "D" :: d :: "P" :: n :: ws => do
       let den ← d.toNat?
       if den = 0 then none
@@ -269,6 +290,13 @@ def handleFace : List String → Option String
         | none => if ts.length + 2 ≤ n then some s!"ok n={ts.length}" else some "bad:too-many-triangles"
   | _ => none
 
+def handleFace : List String → Option String
+  | "S" :: e :: ws => do
+      let e ← e.toInt?
+      if e.natAbs > 200 then none
+      handleFaceS ws
+  | ws => handleFaceS ws
+
 /-! ### ProfileMesh -/
 
 /-- rotate a triangle so that its smallest id comes first (orientation preserved) -/
@@ -290,8 +318,8 @@ def handleProfile (inp : Input) : Option String :=
       let (tf, _) ← parseTris rest
       let loops := loopSlices inp.lens inp.pts
       if !validRegion loops || z1 ≤ z0 then some "invalid-input" else
-      let q0 : Q := (z0 : Q) / inp.den
-      let q1 : Q := (z1 : Q) / inp.den
+      let q0 : Q := (z0 : Q) / inp.den * inp.sc
+      let q1 : Q := (z1 : Q) / inp.den * inp.sc
       let a2 := regionArea2 loops
       let cnt := 2 * expectCount loops + 2 * (inp.pts.length : Int)
       let okLine := s!"ok vol={showRat (a2 / 2 * (q1 - q0))} n={cnt}"
@@ -323,6 +351,7 @@ def handleAll (ws : List String) : Option String :=
   | "splits" :: r => parseInput r >>= handleSplits
   | "earseq" :: r => parseInput r >>= handleEarSeq
   | "face" :: r => handleFace r
+  | "off" :: r => handleFace r      -- the same face read through `ReadOFF`
   | "profile" :: r => parseInput r >>= handleProfile
   | _ => none
 
